@@ -7,6 +7,7 @@ package main
 
 import (
 	"fmt"
+	"go/token"
 	"go/types"
 	"sort"
 	"strings"
@@ -81,6 +82,78 @@ func checkC11(c *Ctx, r *Report) {
 	}
 	r.Rule("R11c", "no store into an expression / dynamic-value / path / metadata object outside the function that constructs it (these objects are shared between a source and its copies and between concurrent readers)", 10)
 	immutableStoresRule(c, r, "R11c")
+	capturedConfigRule(c, r)
+}
+
+// capturedConfigRule (R11d): a *Config found in the unpack target may be the very child of the
+// config being read (captured by an earlier Unpack into the same target; E1's reflect sink cut does
+// not see that alias). Merging the source's sub-config into it is a write into the shared config
+// unless the two are known to differ: the merge must be dominated by an identity test.
+func capturedConfigRule(c *Ctx, r *Report) {
+	r.Rule("R11d", "while unpacking, a config found in the target is merged with a sub-config of the source only under an identity test that excludes old == source (a target filled by an earlier Unpack holds the source's own child)", 1)
+	mergeFns := map[*ssa.Function]bool{}
+	for _, n := range []string{"mergeConfig", "mergeFieldConfig"} {
+		if f := c.TryFunc("", n); f != nil {
+			mergeFns[f] = true
+		}
+	}
+	for _, fn := range c.SrcFuncs() {
+		if fn.Pkg != c.SSA[""] || !strings.HasPrefix(fn.Name(), "reify") {
+			continue
+		}
+		for _, ci := range CallsIn(fn, false) {
+			g := ci.Common().StaticCallee()
+			if g == nil || !mergeFns[g] {
+				continue
+			}
+			args := ci.Common().Args
+			to, from := args[len(args)-2], args[len(args)-1]
+			// `from` produced by a toConfig call in this function, `to` read out of the target by reflection
+			fromSub, toReflect := false, false
+			for _, s := range append(Sources(from), from) {
+				if ex, ok := s.(*ssa.Extract); ok {
+					if call, ok := ex.Tuple.(*ssa.Call); ok && call.Call.IsInvoke() && call.Call.Method.Name() == "toConfig" {
+						fromSub = true
+					}
+				}
+			}
+			for _, s := range append(Sources(to), to) {
+				if ta, ok := s.(*ssa.TypeAssert); ok {
+					s = ta.X
+				}
+				if call, ok := s.(*ssa.Call); ok {
+					if f := call.Call.StaticCallee(); f != nil && f.String() == "(reflect.Value).Interface" {
+						toReflect = true
+					}
+				}
+			}
+			if !fromSub || !toReflect {
+				continue
+			}
+			guarded := false
+			for _, cd := range DomConds(ci.(ssa.Instruction).Block()) {
+				bo, ok := cd.V.(*ssa.BinOp)
+				if !ok || (bo.Op != token.EQL && bo.Op != token.NEQ) {
+					continue
+				}
+				same := (sameSrc(bo.X, to) && sameSrc(bo.Y, from)) || (sameSrc(bo.X, from) && sameSrc(bo.Y, to))
+				if same && (bo.Op == token.EQL) != cd.Truth {
+					guarded = true
+				}
+			}
+			r.Analysed["merges into configs found in the target"]++
+			r.Check(guarded, "R11d", c.FnName(fn), "merge into captured config", c.Pos(ci.Pos()), "dominated by old != source",
+				"a config found in the unpack target is merged with the source's sub-config without excluding that they are the same object: a second Unpack into a target that captured the child rewrites the shared config (lists grow under append, references are replaced by copies) while other readers use it")
+		}
+	}
+}
+
+func sameSrc(a, b ssa.Value) bool {
+	if a == b {
+		return true
+	}
+	sa, sb := Sources(a), Sources(b)
+	return len(sa) == 1 && len(sb) == 1 && sa[0] == sb[0]
 }
 
 func e1Assumptions(r *Report, e *E1) {
